@@ -515,6 +515,16 @@ func (vlog *valueLog) populateFilesMap() error {
 		}
 		found[fid] = struct{}{}
 
+		if fi, ierr := file.Info(); ierr == nil && fi.Size() == 0 && !vlog.opt.ReadOnly {
+			// A zero-length value log file is what a crash leaves behind between creating the
+			// file and sizing it, or between truncating and unlinking it. Nothing can point
+			// into it, so remove it instead of failing Open.
+			if rerr := os.Remove(vlog.fpath(uint32(fid))); rerr != nil {
+				return errFile(rerr, file.Name(), "Unable to remove empty log file.")
+			}
+			continue
+		}
+
 		lf := &logFile{
 			fid:      uint32(fid),
 			path:     vlog.fpath(uint32(fid)),
